@@ -546,6 +546,8 @@ class StickyAssignmentExecutor:
         self, reassignable_partitions: list[TopicPartition]
     ) -> bool:
         reassignment_performed = False
+        # assignments seen at the end of a pass, see below
+        seen_assignments = set()
 
         # repeat reassignment until no partition can be moved to improve the balance
         while True:
@@ -608,6 +610,14 @@ class StickyAssignmentExecutor:
 
             if not modified:
                 break
+            # A move can be turned by `PartitionMovements` into moving another
+            # partition of the topic back, which the next pass undoes again: the
+            # passes then alternate between the same assignments for ever. Stop as
+            # soon as an assignment repeats, no further pass can improve on it.
+            assignment = frozenset(self.current_partition_consumer.items())
+            if assignment in seen_assignments:
+                break
+            seen_assignments.add(assignment)
         return reassignment_performed
 
     def _reassign_partition(self, partition: TopicPartition) -> None:
